@@ -101,7 +101,8 @@ def runHist (c : SContent) (ops : List SimOp) : Json :=
                  else jacResJ (callJac s.content t xs)
                | _, _ => jacResJ (callJac s.content t xs))
             | _ => Json.null
-          go s' rest (acc.push (Json.mkObj [("m", outJ o), ("s", fresh)]))
+          go s' rest (acc.push (Json.mkObj [("m", outJ o), ("s", fresh),
+                                            ("c", .bool (s.recompilesG Mxl.C12.Generated.glue))]))
     -- the whole history at once (`runG`, what `C12_sim_history` is stated over): `null` when a re-initialisation raises
     let run : Json := match runG Mxl.C12.Generated.glue s0 ops with
       | .ok (_, outs) => .arr (outs.map outJ).toArray
